@@ -529,6 +529,8 @@ class Node(object):
         Kills a server when they go off duty.
         """
         srvr.total_time = self.increment_time(self.now, -srvr.start_date)
+        srvr.busy_time = self.increment_time(srvr.busy_time, -srvr.busy_time_at_wrap_up)
+        srvr.busy_time_at_wrap_up = 0
         self.overtime.append(self.increment_time(self.now, -srvr.shift_end))
         self.all_servers_busy.append(srvr.busy_time)
         self.all_servers_total.append(srvr.total_time)
